@@ -410,7 +410,7 @@ def run(ctx):
     # beyond the bounds: twelve spines, three and four levels of nested splits, wide joins, operators in the right-most columns
     from .. import docspace as D
     big = Acc()
-    for h, seq, sd in D.wide_docs(seed) + D.huge_docs(seed + 5) + D.giant_jobs(seed) + [
+    for h, seq, sd in D.wide_docs(seed) + D.huge_docs(seed + 5) + D.giant_jobs(seed) + D.aligned_jobs(seed) + [
             (['**kern', '**text', '**kern'], ['k', 'd', 'S0', 'S0', 'S0', 'd', 'S3', 'd', 'Y0', 'd', 'J0', 'J0', 'd', 'X1', 'd', 'b', 'S2', 'S3', 'd', 'J2', 'J2', 'd'], seed),
             (['**kern', '**kern'], ['d', 'S1', 'S2', 'S3', 'S4', 'd', 'J3', 'd', 'S0', 'S0', 'd', 'g', 'J0', 'J0', 'd', 'J1', 'J1', 'J1', 'd'], seed + 1),
             (['**text', '**kern', '**dynam', '**kern'], ['d', 'S3', 'S4', 'S5', 'd', 'S1', 'd', 'X0', 'd', 'J3', 'J3', 'J3', 'd', 'J0', 'd'], seed + 2),
